@@ -1590,7 +1590,7 @@ def run(tier, seed, model_ok, translator, search=False, prop="C04", weights=None
                 "transitions. Non-trivial: history with >= 1 successful consultation of "
                 "a table with rows after an operation; distinct by (start table, operation descriptions).")
     thorough = tier == "thorough"
-    n_rand = 2500 if thorough else 400
+    n_rand = 1500 if thorough else 400
     depth_max = 10
     ex_depth = 3 if thorough else 2
     if search:
@@ -1616,8 +1616,8 @@ def run(tier, seed, model_ok, translator, search=False, prop="C04", weights=None
     scripts = scripts_of(SCRIPT_ALPHABET, ex_depth)
     n_scripts = 0
     for i, sc in enumerate(scripts):
-        if len(sc) == 3 and (i + seed) % 3 != 0:
-            continue                      # budget: all scripts of length <= 2, a seed-selected third of those of length 3
+        if len(sc) == 3 and (i + seed) % 5 != 0:
+            continue                      # budget: all scripts of length <= 2, a seed-selected fifth of those of length 3
         n_scripts += 1
         add(run_history(out, prop, seed, "ex%d" % ex_depth, i, len(sc), weights=None, plan=EX_PLAN, script=list(sc)))
     e_depth = 3
@@ -1640,7 +1640,7 @@ def run(tier, seed, model_ok, translator, search=False, prop="C04", weights=None
             compare(out, what, case, exp, ans)
     out.exhaustive = False
     out.notes.append(f"bounded-exhaustive part: {n_scripts} operation-kind scripts of length <= {ex_depth} over "
-                     f"{len(SCRIPT_ALPHABET)} kinds from one fixed start table (all of length <= 2; of length 3 the third selected "
+                     f"{len(SCRIPT_ALPHABET)} kinds from one fixed start table (all of length <= 2; of length 3 the fifth selected "
                      f"by the seed), and all {len(escripts)} scripts of length 2..{e_depth} "
                      f"over {len(E_ALPHABET)} kinds around emptiness transitions from two start tables (arguments random): "
                      "validates the model against the code, it is not the proof")
